@@ -34,6 +34,29 @@ CLAIMED = {
         "note": TRUSTED,
         "technique": "static analysis: dominance-based accept-path rule over MIR (guards in force at every Ok return), error-chain consumption analysis, panic-surface enumeration",
     },
+    "C04": {
+        "text": "Static decision tables and placement rules: DateRange::contains is enumerated path by path and equals the "
+                "half-open specification on all 52 cases (13 weak orderings of date/start/end x Some/None of both bounds, "
+                "exhaustive), so adjacent ranges partition their union; is_bypass and require_recompute equal their "
+                "specifications on their full domains; in Ledger::balance a posting is kept iff "
+                "query.date_range.contains(txn.date), no other selection sits on the posting stream and the amount goes to "
+                "the posting's own account; Balance::add_amount / add_posting_amount remove zero entries of the updated "
+                "entry on every path.  Necessary conditions; numeric agreement of the incremental and re-folded sums is not decided.",
+        "design_ref": "DESIGN.md §4 C04, §3 E5/E6",
+        "note": TRUSTED,
+        "technique": "static analysis: exhaustive decision-table check of MIR paths over weak orderings; dominance / provenance rules",
+    },
+    "C08": {
+        "text": "Static decision tables and structure rules: the operand-kind typing of check_add/sub/mul/div equals the "
+                "specification on every (lhs kind, rhs kind[, zero divisor]) case, the arithmetic on each accepting arm is the "
+                "operator's own trait applied to (self, rhs) in order, BinaryOp variants dispatch to the matching check_* with "
+                "eval(lhs) as receiver and eval(rhs) as argument, unary minus negates; the grammar's precedence strata, operator "
+                "symbol tables and left fold are read from the function-value reference graph and constants; conversions to a "
+                "single amount test the commodity count before taking an element.  Numeric results are not decided.",
+        "design_ref": "DESIGN.md §4 C08, §3 E5/E7/E8",
+        "note": TRUSTED,
+        "technique": "static analysis: exhaustive decision tables over enum-kind domains from MIR paths; function-reference graph and constant-set comparison for the grammar",
+    },
     "C13": {
         "text": "Static, all-sites: every place where HashMap/HashSet iteration order enters the three crates "
                 "(std iterators, the local wrapper types AmountIter / intern::Iter, local functions returning them, "
